@@ -151,13 +151,15 @@ def c19_reader(params):
     try:
         h = impl.make_handlers({})
         impl.call_gcode(h, "G28")
+        impl.call_gcode(h, "G1 X50 Y60 Z7 E2")          # somewhere else: a zero word is a word too
+        before = {"X": 50.0, "Y": 60.0, "Z": 7.0, "E": 2.0}
         res = impl.call_gcode(h, "G1 " + params, "G1", None)
         if res[0] == "err":
             out.append("G1 %s raised %s" % (params, res[1]))
         else:
             pos = h.state.position
             for (letter, axis) in (("X", pos.X_AXIS), ("Y", pos.Y_AXIS), ("Z", pos.Z_AXIS), ("E", pos.E_AXIS)):
-                want = last.get(letter, 0.0)
+                want = last.get(letter, before[letter])
                 if axis.current != want and not (axis.current != axis.current and want != want):
                     out.append("after 'G1 %s' the tracked %s is %r, the last value given is %r"
                                % (params, letter, axis.current, want))
@@ -177,6 +179,33 @@ class _Stream(object):
 
     def close(self):
         pass
+
+
+@guard.violation_on_hang(lambda m: [m])
+def c19_g28(params):
+    """G28 acts on the axis letters present (valued or not): those axes are homed, all three when
+    no X/Y/Z word is present; other flag words change nothing about that."""
+    out = []
+    _code, words = read_words("G28 " + params)
+    named = set(l for (l, _v, _t) in words if l in "XYZ")
+    try:
+        if impl.GcodeParser().parse("G28 " + params).gcode != "G28":
+            return out
+        h = impl.make_handlers({})
+        impl.call_gcode(h, "G28")
+        impl.call_gcode(h, "G1 X50 Y60 Z7")
+        res = impl.call_gcode(h, "G28 " + params, "G28", None)
+        if res[0] == "err":
+            return ["G28 %s raised %s" % (params, res[1])]
+        pos = h.state.position
+        for (letter, axis, was) in (("X", pos.X_AXIS, 50.0), ("Y", pos.Y_AXIS, 60.0), ("Z", pos.Z_AXIS, 7.0)):
+            want = 0.0 if (letter in named or not named) else was
+            if axis.current != want:
+                out.append("after 'G28 %s' the tracked %s is %r, expected %r (axes named: %s)"
+                           % (params, letter, axis.current, want, "".join(sorted(named)) or "none"))
+    except Exception as exc:  # pylint: disable=broad-except
+        out.append("exception %s: %s" % (type(exc).__name__, exc))
+    return out
 
 
 def make_stream_processor(handlers):
